@@ -1,6 +1,7 @@
 import OutlineModel.Proofs.NatInv
 import OutlineModel.Proofs.UDP
 import OutlineModel.Proofs.TieValidatePacket
+import OutlineModel.Proofs.TieNatMap
 import OutlineModel.Model.UDPRun
 /-
 C04 — UDP associations give each client one stable, private outbound socket.
@@ -298,5 +299,82 @@ example : Agrees (fun ip => if ip = [] then .ok else .invalid) (fun _ => .ip [])
   resolve_ip := fun a tgt ip h hr => by simp [h]; simpa using hr
   verdict_ok := fun ip h => by by_cases hi : ip = [] <;> simp_all
   verdict_bad := fun ip h => by by_cases hi : ip = [] <;> simp_all [verdictStatus]
+
+/-! ### the translated NAT table (`natmap.Get / set / del`, service/udp.go) is a finite map keyed by the client address -/
+
+/-- operations on the table, as `Handle` and the association's copier make them -/
+inductive TOp
+  | set (client : String) (pc : GoRT.Opaque "net.PacketConn") (key : GoRT.Opaque "shadowsocks.EncryptionKey") (cm : GoRT.Opaque "service.UDPConnMetrics")
+  | del (client : String)
+  | get (client : String)
+
+/-- the translated code, run over a sequence of operations (`none` = a panic) -/
+def codeTable : Gen.Code.natmap → List TOp → Option Gen.Code.natmap
+  | m, [] => some m
+  | m, .set c pc k cm :: ops => (Gen.Code.natmap.set m c pc k cm).bind (fun r => codeTable r.1 ops)
+  | m, .del c :: ops => (Gen.Code.natmap.del m c).bind (fun r => codeTable r.1 ops)
+  | m, .get c :: ops => (Gen.Code.natmap.Get m c).bind (fun r => codeTable r.1 ops)
+
+/-- the specification: a function from client address to the association last stored for it and not removed since -/
+def specTable (timeout : Int) : (String → Option Gen.Code.natconn) → List TOp → (String → Option Gen.Code.natconn)
+  | f, [] => f
+  | f, .set c pc k cm :: ops => specTable timeout (fun x => if x = c then some (Tie.NatMap.entryOf timeout pc k cm) else f x) ops
+  | f, .del c :: ops => specTable timeout (fun x => if x = c then none else f x) ops
+  | f, .get _ :: ops => specTable timeout f ops
+
+/-- **code_nat_table_refines_map**: every sequence of set / del / Get on the translated NAT table runs without panic,
+    leaves the table's timeout alone, and ends in a table whose lookups are exactly those of the specification map:
+    a client address is bound to the association of the last `set` for that very address that no `del` of that
+    address followed — so two different client addresses never see each other's association, and an association
+    stays bound to its client until its own `del`. -/
+theorem code_nat_table_refines_map (ops : List TOp) (m : Gen.Code.natmap) :
+    ∃ m', codeTable m ops = some m' ∧ m'.timeout = m.timeout ∧
+      ∀ c, (Gen.Code.natmap.Get m' c) = some (m', specTable m.timeout (fun x => m.keyConn.get? x) ops c) := by
+  induction ops generalizing m with
+  | nil => exact ⟨m, rfl, rfl, fun c => Tie.NatMap.get_tie m c⟩
+  | cons op ops ih =>
+    cases op with
+    | set c pc k cm =>
+      obtain ⟨m', h1, h2, h3⟩ := ih { m with keyConn := m.keyConn.insert c (Tie.NatMap.entryOf m.timeout pc k cm) }
+      refine ⟨m', ?_, h2, ?_⟩
+      · simp only [codeTable, Tie.NatMap.set_tie, Option.bind_some]; exact h1
+      · intro x; rw [h3 x]; simp only [specTable]
+        congr 3; funext y; rw [Tie.NatMap.get?_insert]
+    | del c =>
+      rcases Tie.NatMap.del_tie m c with hd | ⟨hn, hd⟩
+      · obtain ⟨m', h1, h2, h3⟩ := ih { m with keyConn := m.keyConn.erase c }
+        refine ⟨m', ?_, h2, ?_⟩
+        · simp only [codeTable, hd, Option.bind_some]; exact h1
+        · intro x; rw [h3 x]; simp only [specTable]
+          congr 3; funext y; rw [Tie.NatMap.get?_erase]
+      · obtain ⟨m', h1, h2, h3⟩ := ih m
+        refine ⟨m', ?_, h2, ?_⟩
+        · simp only [codeTable, hd, Option.bind_some]; exact h1
+        · intro x; rw [h3 x]; simp only [specTable]
+          congr 3; funext y
+          by_cases hy : y = c
+          · simp [hy, hn]
+          · simp [hy]
+    | get c =>
+      obtain ⟨m', h1, h2, h3⟩ := ih m
+      refine ⟨m', ?_, h2, ?_⟩
+      · simp only [codeTable, Tie.NatMap.get_tie, Option.bind_some]; exact h1
+      · intro x; rw [h3 x]; simp only [specTable]
+
+/-- **code_del_returns_the_association**: the translated `del` hands back exactly what the table held for that client
+    (so that the copier closes its own socket and no other) and afterwards the client is unbound. -/
+theorem code_del_returns_the_association (m : Gen.Code.natmap) (c : String) :
+    ∃ m', Gen.Code.natmap.del m c = some (m', m.keyConn.get? c) ∧ m'.keyConn.get? c = none ∧
+      ∀ c', c' ≠ c → m'.keyConn.get? c' = m.keyConn.get? c' := by
+  rcases Tie.NatMap.del_tie m c with hd | ⟨hn, hd⟩
+  · refine ⟨_, hd, ?_, ?_⟩
+    · simp [Tie.NatMap.get?_erase]
+    · intro c' h; simp [Tie.NatMap.get?_erase, h]
+  · exact ⟨m, by rw [hd, hn], hn, fun _ _ => rfl⟩
+
+/-- non-vacuity: two clients, one removed -/
+example : (codeTable Gen.Code.natmap.zero [.set "a:1" ⟨1⟩ ⟨0⟩ ⟨0⟩, .set "b:2" ⟨2⟩ ⟨0⟩ ⟨0⟩, .del "a:1"]).map
+    (fun m => ((m.keyConn.get? "a:1").map (·.PacketConn.val), (m.keyConn.get? "b:2").map (·.PacketConn.val))) =
+    some (none, some 2) := by decide
 
 end OutlineModel.Props.C04
